@@ -1460,6 +1460,17 @@ func (t *tr) rangeStmt(c *fnCtx, x *ast.RangeStmt, after []ast.Stmt, k string, d
 	if !isBytes(t.info.TypeOf(x.X)) && t.coqType(t.info.TypeOf(x.X)) != "(list Z)" {
 		t.fail(x, "range over %s", t.info.TypeOf(x.X))
 	}
+	if b, ok := t.info.TypeOf(x.X).Underlying().(*types.Basic); ok && b.Info()&types.IsString != 0 {
+		// Go iterates the RUNES of a string (decoding UTF-8, with byte indices); the translation below is a byte loop
+		if ident, isIdent := x.Value.(*ast.Ident); x.Value != nil && !(isIdent && ident.Name == "_") {
+			t.fail(x, "range over a string with a value variable iterates runes, not bytes: model the function by hand")
+		}
+		if x.Key != nil {
+			if ident, isIdent := x.Key.(*ast.Ident); !(isIdent && ident.Name == "_") {
+				t.fail(x, "range over a string with an index variable steps by rune width: model the function by hand")
+			}
+		}
+	}
 	vars := t.assignedOuter(x.Body)
 	afterExpr := t.block(c, after, k, depth+1)
 	prefix, brk := t.join(c, vars, afterExpr, depth)
